@@ -326,7 +326,7 @@ class AllocCheck:
                "free-never-raises (safety obligations), coalescing (WF non-touching + freed region contained in one chunk) and leak-freedom "
                "(allocate: every old free chunk stays covered by one chunk except < alignment padding bytes before the result and the bytes handed out; "
                "free: every old chunk and the freed region are covered afterwards; grow: free bytes = old free bytes + exactly the added range). "
-               "get_free() as a sum and CPython's recursion limit are decided by the bounded part only."
+               "get_free() is proved to return the sum of (end - start) over exactly the chunks of the free list (one induction step for a generic chunk; python semantics of sum / an unfiltered list comprehension assumed); that this sum counts bytes (the chunks are pairwise disjoint) is WF; CPython's recursion limit is decided by the bounded part only."
                if prop == "C12" else
                "C04 clauses: result aligned, in bounds, disjoint from every live region and every free chunk, bytes of [0,old capacity) preserved across growth.")
         )
@@ -341,6 +341,10 @@ class AllocCheck:
         ]
         if self.PROP == "C04":
             t += [("<lemma>", "alloc_step"), ("<lemma>", "free_step")]
+        if self.PROP == "C12":
+            from .alloc_getfree_vc import obligations_get_free
+
+            t += [("<gen>", obligations_get_free)]
         return t
 
     def bounded(self, tier, seed, focus):
